@@ -4,9 +4,9 @@ package main
 
 import (
 	"fmt"
-	"os"
 	"go/token"
 	"go/types"
+	"os"
 	"strings"
 
 	"golang.org/x/tools/go/ssa"
@@ -675,7 +675,7 @@ func ruleAssert(c *Ctx) []Obligation {
 				return
 			}
 			// (3) interface-to-interface or to a type the operand statically always has
-			if why, okj := assertJustified[con]; okj {
+			if why, okj := jget("assertJustified", assertJustified, con); okj {
 				obs = append(obs, just(R, con, pos, why))
 				return
 			}
@@ -907,7 +907,7 @@ func rulePanic(c *Ctx) []Obligation {
 			case c.schemaImpossible(p):
 				obs = append(obs, ok(R, con, pos, "guarded by a reflect type identity test that the builder table makes unsatisfiable (closures are filed under the type they were made for)"))
 			default:
-				if why, okj := panicJustified[c.FnName(fn)]; okj {
+				if why, okj := jget("panicJustified", panicJustified, c.FnName(fn)); okj {
 					obs = append(obs, just(R, con, pos, why))
 				} else {
 					obs = append(obs, bad(R, con, pos, "explicit panic reachable from the API on input-dependent paths"))
